@@ -133,6 +133,8 @@ def run_check(prop, tier, seed, workers=None, budget=None, keep=False):
     # ------------------------------------------------------------ aggregate
     known = load_known()
     counters, classes, discarded, inconc, anchors, extra = {}, {}, {}, {}, {}, {}
+    anchors_internal = set()       # private helpers / unexported helper classes: reported when never entered, not demanded
+    anchors_missing = []           # anchored functions that do not exist in the tree under test (recorded, not demanded)
     nontrivial, orders = set(), set()
     samples, violations, cerrs = [], [], []
     evaluations = nested = top = 0
@@ -147,6 +149,10 @@ def run_check(prop, tier, seed, workers=None, budget=None, keep=False):
             inconc[k] = inconc.get(k, 0) + v
         for k, v in r.get("anchors", {}).items():
             anchors[k] = anchors.get(k, 0) + v
+        for k in r.get("anchors_missing", ()):
+            if k not in anchors_missing:
+                anchors_missing.append(k)
+        anchors_internal.update(r.get("anchors_internal", ()))
         for k, v in r.get("extra", {}).items():
             if isinstance(v, (int, float)) and not isinstance(v, bool):
                 extra[k] = extra.get(k, 0) + v
@@ -207,8 +213,10 @@ def run_check(prop, tier, seed, workers=None, budget=None, keep=False):
         if discarded.get(key):
             reasons.append("harness discard %s occurred %d times" % (key, discarded[key]))
     for a, n in anchors.items():
-        if n == 0:
+        if n == 0 and a not in anchors_internal:
             reasons.append("anchor %s never entered" % a)
+    if anchors and not any(anchors.values()):
+        reasons.append("no anchor was entered at all")
     wd = sum(inconc.values())
     if evaluations and wd > max(5, cfg.get("inconclusive_tolerance", 0.05) * evaluations):
         reasons.append("%d inconclusive cases (%s) out of %d" % (wd, inconc, evaluations))
@@ -231,6 +239,8 @@ def run_check(prop, tier, seed, workers=None, budget=None, keep=False):
             "monitored_calls_nested_inside_library": nested,
             "pytest_workload_events": (pyres or {}).get("top_calls", 0) + (pyres or {}).get("nested_calls", 0) if pyres else None,
             "anchor_hits": anchors,
+            "anchors_not_in_this_tree": anchors_missing,
+            "internal_anchors_never_entered": sorted(a for a, n in anchors.items() if n == 0 and a in anchors_internal),
             "discarded_outside_quantifier": discarded,
             "inconclusive_cases": inconc,
             "known_findings_observed": {k: len(v) for k, v in kfound.items()},
